@@ -144,7 +144,7 @@ def build_schema(desc: dict) -> dict:
     return {"openapi": "3.0.2", "info": {"title": "t", "version": "1"}, "paths": paths}
 
 
-def run_one(desc: dict) -> dict:
+def run_one(desc: dict, controller: "Recorder | None" = None) -> dict:
     """Execute one run; returns {"hdr": ..., "lines": [...]}. Never raises for engine-level problems (they become lines)."""
     import hypothesis
     import schemathesis
@@ -160,7 +160,7 @@ def run_one(desc: dict) -> dict:
 
     unit_phase.WORKER_TIMEOUT = 0.02  # harness process only: shorter polling, same logic
     threading.excepthook = lambda args: None  # a dying worker thread is an observation (WEXIT line), not console noise
-    rec = Recorder(fault=desc.get("fault"), ctrlc_at=desc.get("ctrlc_at", 0))
+    rec = controller if controller is not None else Recorder(fault=desc.get("fault"), ctrlc_at=desc.get("ctrlc_at", 0))
     nops = len(desc["ops"])
     extra_ops = 2 if desc.get("links") else 0
     for i in range(1, nops + 1):
@@ -244,6 +244,14 @@ def run_one(desc: dict) -> dict:
         try:
             stream = from_schema(schema, config=config).execute()
             n = 0
+            if desc.get("env_stop") and hasattr(rec, "gate"):
+                def _env_stop():
+                    rec.gate("stop", env=True)
+                    if not rec.free or rec.idx > 0:
+                        stream.stop()
+                        rec.emit({"e": "STOP"})
+
+                threading.Thread(target=_env_stop, daemon=True).start()
             try:
                 for ev in stream:
                     n += 1
@@ -310,5 +318,6 @@ def run_one(desc: dict) -> dict:
            "maxex": desc.get("max_examples", 3), "cof": bool(desc.get("cof")), "unique": bool(desc.get("unique")),
            "enabled": [p in desc["phases"] for p in PHASES], "steps": desc.get("step_count", 3),
            "hasfault": desc.get("fault") is not None, "faultfired": rec.fault_fired,
-           "invalid": [i for i, b in enumerate(desc["ops"], 1) if b == "invalid"], "wall_ms": int((time.time() - t0) * 1000)}
+           "invalid": [i for i, b in enumerate(desc["ops"], 1) if b == "invalid"], "wall_ms": int((time.time() - t0) * 1000),
+           "diverged": getattr(rec, "diverged", ""), "followed": getattr(rec, "followed", 0)}
     return {"hdr": hdr, "lines": lines, "desc": desc}
